@@ -4,7 +4,7 @@
 pub trait BytesLike { spec fn bytes(&self) -> Seq<u8>; }
 impl BytesLike for Vec<u8> { open spec fn bytes(&self) -> Seq<u8> { self@ } }
 impl BytesLike for [u8] { open spec fn bytes(&self) -> Seq<u8> { self@ } }
-impl BytesLike for [u8; 32] { open spec fn bytes(&self) -> Seq<u8> { self@ } }
+impl<const N: usize> BytesLike for [u8; N] { open spec fn bytes(&self) -> Seq<u8> { self@ } }
 impl BytesLike for HashVal { open spec fn bytes(&self) -> Seq<u8> { self.0@ } }
 impl BytesLike for Bytes { open spec fn bytes(&self) -> Seq<u8> { self@ } }
 impl<T: BytesLike + ?Sized> BytesLike for &T { open spec fn bytes(&self) -> Seq<u8> { (**self).bytes() } }
